@@ -223,6 +223,13 @@ def run(c, chk):
     c04.run(c, sub)
     sub.done('value conversion')
 
+    # ---- R5.11: the reader decodes what the writer wrote by the rules of the language
+    if not isinstance(chk, report.SubCheck):
+        from . import c03 as _c03x
+        chk.rule('R5.11', 'strings are decoded by the reference table (the rules of C03): every byte the printer writes raw between quotes reads back as itself')
+        sub3 = report.SubCheck(chk, 'R5.11', 'C03')
+        _c03x.run(c, sub3)
+        sub3.done('string decoding')
     # ---- R5.10: the printed text is read from the scanner's initial state
     if not isinstance(chk, report.SubCheck):
         from . import c08 as _c08x
